@@ -2,6 +2,8 @@
   Property C04 — a waituntil(t) segment pads with zeros so that the next segment starts at time t.
 -/
 import BB.Proofs.Forge
+import BB.Proofs.G1Flat
+import BB.Proofs.G1Wait
 
 namespace BB.C04
 open BB
@@ -116,5 +118,235 @@ example : (forgeBP exampleBP).toOption.map (fun f => f.blocks.map Blk.len) = som
   decide +kernel
 example : (forgeBP { exampleBP with segs := exampleBP.segs.map (fun s => if s.name = "ramp" then { s with dur := .num 6 } else s) })
     = .error .value := by decide +kernel
+
+/-! ### audit round: every waituntil, general overrun, duration formula, end to end -/
+
+/-- `wait_block_zero` for *every* function the forger treats as a waituntil (`isWait`), not only
+    the canonical record `Fn.waitSpecial`: the forger substitutes `PulseAtoms.waituntil`, whose
+    samples are all zero, whatever the arguments, sample rate and length. -/
+theorem wait_block_zero_all (fn : Fn) (hw : fn.isWait = true) (args : List Val) (sr : Rat) (n : Nat) :
+    forgeFn fn = Fn.waitCallable ∧
+    Blk.eval? (.call (forgeFn fn) args sr n) = some (List.replicate n 0) := by
+  refine ⟨forgeFn_wait fn hw, ?_⟩
+  rw [forgeFn_wait fn hw]
+  exact Blk.evalZeros _ _ _ _ rfl
+
+example : ({ special := true, name := "waituntil", qual := "anything", params := ["x"], shape := .call } : Fn).isWait = true := by
+  decide
+
+/-- **General overrun.**  Whatever precedes the waituntil - ordinary segments and earlier
+    waituntils alike - if those segments resolve (to durations `dp`) and already extend beyond `t`,
+    then `duration`, `points` and forging all raise ValueError. -/
+theorem overrun_raises_general (b : BP) (pre : List Seg) (w : Seg) (post : List Seg) (t : Rat) (tl : List Val)
+    (dp : List Rat) (hb : b.segs = pre ++ w :: post)
+    (hw : w.fn.isWait = true) (ha : w.args = .num t :: tl)
+    (hpre : BP.resolveGo pre 0 = .ok dp) (hover : t < sumR dp) :
+    b.duration = .error .value ∧
+    (∀ sr, b.SR = .num sr → b.points = .error .value ∧ forgeBP b = .error .value) := by
+  have hr : b.resolveWaits = .error .value := by
+    unfold BP.resolveWaits
+    rw [hb]
+    exact resolveGo_overrun_general pre w post 0 t tl dp hw ha hpre (by simpa using hover)
+  refine ⟨by simp [BP.duration, hr, Except.map], ?_⟩
+  intro sr hsr
+  exact ⟨by simp [BP.points, hsr, hr, Except.map], by simp [forgeBP, hsr, hr]⟩
+
+/-- a prefix with an earlier waituntil: ramp(2 s), waituntil(3), ramp(2 s) has run for 5 s -/
+def overrunPre : List Seg :=
+  [ { name := "ramp", fn := Fn.rampFn, args := [.num 0, .num 1], dur := .num 2 },
+    { name := "waituntil", fn := Fn.waitSpecial, args := [.num 3], dur := .none },
+    { name := "ramp2", fn := Fn.rampFn, args := [.num 0, .num 1], dur := .num 2 } ]
+
+example : BP.resolveGo overrunPre 0 = .ok [2, 1, 2] ∧ (4 : Rat) < sumR [2, 1, 2] := by decide +kernel
+
+/-- Conversely, when the whole blueprint resolves, the waituntil got the non-negative duration
+    `t - elapsed`, where `elapsed` is the sum of the resolved durations before it. -/
+theorem wait_duration_is_t_minus_elapsed (b : BP) (pre : List Seg) (w : Seg) (post : List Seg) (t : Rat)
+    (tl : List Val) (ds : List Rat) (hb : b.segs = pre ++ w :: post)
+    (hw : w.fn.isWait = true) (ha : w.args = .num t :: tl) (h : b.resolveWaits = .ok ds) :
+    ∃ hk : pre.length < ds.length, ds[pre.length] = t - sumR (ds.take pre.length) ∧
+      sumR (ds.take pre.length) ≤ t := by
+  unfold BP.resolveWaits at h
+  rw [hb] at h
+  obtain ⟨dp, dpost, _, hl, hle, _, rfl⟩ := resolveGo_wait_split pre w post 0 t tl ds hw ha h
+  refine ⟨by simp; omega, ?_, ?_⟩
+  · rw [List.getElem_append_right (by omega)]
+    simp [hl]
+  · simpa [hl] using hle
+
+/-- **The reported duration is `t` plus what follows.**  For a blueprint `pre ++ waituntil(t) ::
+    post` that resolves, `duration` is `t` plus the resolved durations of `post` (resolved from
+    absolute time `t` on, so later waituntils count from there), and `points` is that duration
+    times the sample rate, rounded: both include the filled time, whatever `pre` is. -/
+theorem duration_is_t_plus_rest (b : BP) (pre : List Seg) (w : Seg) (post : List Seg) (t : Rat)
+    (tl : List Val) (ds : List Rat) (hb : b.segs = pre ++ w :: post)
+    (hw : w.fn.isWait = true) (ha : w.args = .num t :: tl) (h : b.resolveWaits = .ok ds) :
+    ∃ dpost, BP.resolveGo post t = .ok dpost ∧ ds.drop (pre.length + 1) = dpost ∧
+      b.duration = .ok (t + sumR dpost) ∧
+      (∀ sr, b.SR = .num sr → b.points = .ok (rhe ((t + sumR dpost) * sr))) := by
+  have h0 := h
+  unfold BP.resolveWaits at h
+  rw [hb] at h
+  obtain ⟨dp, dpost, _, hl, _, hpost, hds⟩ := resolveGo_wait_split pre w post 0 t tl ds hw ha h
+  have hsum : sumR ds = t + sumR dpost := by
+    rw [hds, sumR_append]; simp only [sumR]; ring
+  refine ⟨dpost, hpost, ?_, ?_, ?_⟩
+  · rw [hds, ← hl]; simp
+  · rw [(duration_includes_fill b ds h0).1, hsum]
+  · intro sr hsr
+    rw [(duration_includes_fill b ds h0).2 sr hsr, hsum]
+
+/-- **End to end.**  In a successfully forged blueprint `pre ++ waituntil(t) :: post` whose
+    resolved durations before the waituntil are whole numbers of samples, and with `t·SR` within
+    0.4 of the integer `T`:
+    the waituntil's block (block `i = |pre|`) evaluates to zeros only, the blocks `0..i` together
+    have exactly `T = round(t·SR)` samples, and hence block `i+1` (if there is one) starts at sample
+    `T` of the element - `starts` being the offsets at which the blocks sit in the flat waveform
+    (`C01.flat_spec`). -/
+theorem wait_end_to_end (b : BP) (f : Forged) (h : forgeBP b = .ok f)
+    (pre : List Seg) (w : Seg) (post : List Seg) (t : Rat) (tl : List Val)
+    (hb : b.segs = pre ++ w :: post) (hw : w.fn.isWait = true) (ha : w.args = .num t :: tl)
+    (sr : Rat) (ds : List Rat) (hsr : b.SR = .num sr) (hds : b.resolveWaits = .ok ds)
+    (hal : ∀ d ∈ ds.take pre.length, ∃ m : Nat, d * sr = m) (T : Int) (ht : |t * sr - T| ≤ 2/5) :
+    rhe (t * sr) = T ∧
+    ((sumN ((f.blocks.map Blk.len).take (pre.length + 1)) : Nat) : Int) = T ∧
+    (∀ hs : pre.length + 1 < (starts (f.blocks.map Blk.len) 0).length,
+      (((starts (f.blocks.map Blk.len) 0)[pre.length + 1] : Nat) : Int) = T) ∧
+    ∃ hbk : pre.length < f.blocks.length,
+      f.blocks[pre.length].eval? = some (List.replicate f.blocks[pre.length].len 0) := by
+  obtain ⟨sr', durs, ns, hsr', hd, hn, _, hf⟩ := (forge_ok_iff b f).mp h
+  have e1 : sr' = sr := by rw [hsr] at hsr'; cases hsr'; rfl
+  have e2 : durs = ds := by rw [hds] at hd; cases hd; rfl
+  subst e1 e2
+  obtain ⟨h2, hns⟩ := countsGo_ok sr' durs ns hn
+  have hlen := resolveGo_length _ _ _ hd
+  have hk : pre.length < durs.length := by rw [hlen, hb]; simp
+  have hnl : ns.length = b.segs.length := by rw [countsGo_length sr' durs ns hn, hlen]
+  have hlens : f.blocks.map Blk.len = durs.map (fun d => (rhe (d * sr')).toNat) := by
+    rw [hf]; simp only [assemble]; rw [mkBlocks_lens sr' b.segs ns hnl, hns]; rfl
+  have hsum := wait_ends_at_t pre w post t tl durs hw ha b hb hd
+  have hpad : 0 ≤ rhe (durs[pre.length] * sr') := by
+    have := h2 _ (List.getElem_mem hk); simp only [segCount] at this; omega
+  obtain ⟨hT, hr⟩ := next_segment_start sr' t durs pre.length hk T hsum hal ht hpad
+  have hT' : ((sumN ((f.blocks.map Blk.len).take (pre.length + 1)) : Nat) : Int) = T := by
+    rw [hlens, ← List.map_take]; exact hT
+  refine ⟨hr, hT', ?_, ?_⟩
+  · intro hs
+    rw [starts_getElem]
+    simpa using hT'
+  · have hi : pre.length < b.segs.length := by rw [hb]; simp
+    have hseg : b.segs[pre.length] = w := by
+      have : b.segs[pre.length]? = some w := by rw [hb]; simp
+      rw [List.getElem?_eq_getElem hi] at this
+      exact Option.some.inj this
+    exact forge_wait_block_zeros b f h pre.length hi (by rw [hseg]; exact hw)
+
+/-- the hypotheses of `wait_end_to_end` on the example: ramp(2 s), waituntil(5.1), ramp(1 s) at
+    10 Sa/s; the ramp after the wait starts at sample 51 -/
+example : exampleBP.resolveWaits = .ok [2, 31/10, 1] ∧ (2 : Rat) * 10 = (20 : Nat) ∧
+    |(51/10 : Rat) * 10 - (51 : Int)| ≤ 2/5 := by
+  refine ⟨by decide +kernel, by norm_num, by norm_num⟩
+
+example : (forgeBP exampleBP).toOption.map (fun f => starts (f.blocks.map Blk.len) 0) = some [0, 20, 51] := by
+  decide +kernel
+
+/-- the "not at a rounding tie" hypothesis on `t·SR` cannot be dropped: with 3 samples in front and
+    `t·SR = 10.5` the wait gets `round(7.5) = 8` samples, so the next segment starts at sample 11,
+    while `round(t·SR) = round(10.5) = 10` (round-half-even, as Python's `round`) -/
+def tieBP : BP :=
+  { segs := [ { name := "ramp", fn := Fn.rampFn, args := [.num 0, .num 1], dur := .num (3/10) },
+              { name := "waituntil", fn := Fn.waitSpecial, args := [.num (21/20)], dur := .none },
+              { name := "ramp2", fn := Fn.rampFn, args := [.num 1, .num 0], dur := .num 1 } ],
+    SR := .num 10 }
+
+example : (forgeBP tieBP).toOption.map (fun f => starts (f.blocks.map Blk.len) 0) = some [0, 3, 11] ∧
+    rhe ((21/20 : Rat) * 10) = 10 := by decide +kernel
+
+/-- `wait_end_to_end` with the alignment hypothesis put on the *segments*, for a prefix of
+    ordinary segments (no earlier waituntil) whose stored durations are whole numbers of samples. -/
+theorem wait_end_to_end_plain (b : BP) (f : Forged) (h : forgeBP b = .ok f)
+    (pre : List Seg) (w : Seg) (post : List Seg) (t : Rat) (tl : List Val)
+    (hb : b.segs = pre ++ w :: post) (hw : w.fn.isWait = true) (ha : w.args = .num t :: tl)
+    (sr : Rat) (hsr : b.SR = .num sr)
+    (hpre : ∀ s ∈ pre, s.fn.isWait = false ∧ ∃ (d : Rat) (m : Nat), s.dur = .num d ∧ d * sr = m)
+    (T : Int) (ht : |t * sr - T| ≤ 2/5) :
+    rhe (t * sr) = T ∧
+    ((sumN ((f.blocks.map Blk.len).take (pre.length + 1)) : Nat) : Int) = T ∧
+    (∀ hs : pre.length + 1 < (starts (f.blocks.map Blk.len) 0).length,
+      (((starts (f.blocks.map Blk.len) 0)[pre.length + 1] : Nat) : Int) = T) ∧
+    ∃ hbk : pre.length < f.blocks.length,
+      f.blocks[pre.length].eval? = some (List.replicate f.blocks[pre.length].len 0) := by
+  obtain ⟨sr', ds, ns, hsr', hd, _, _, _⟩ := (forge_ok_iff b f).mp h
+  have e1 : sr' = sr := by rw [hsr] at hsr'; cases hsr'; rfl
+  subst e1
+  apply wait_end_to_end b f h pre w post t tl hb hw ha sr' ds hsr hd _ T ht
+  have hd' := hd
+  unfold BP.resolveWaits at hd'
+  rw [hb] at hd'
+  obtain ⟨dp, dpost, hp, hl, _, _, rfl⟩ := resolveGo_wait_split pre w post 0 t tl ds hw ha hd'
+  have hplain := resolveGo_plain pre 0 (fun s hs => ⟨(hpre s hs).1, by
+    obtain ⟨d, _, hd, _⟩ := (hpre s hs).2; exact ⟨d, hd⟩⟩)
+  rw [hplain] at hp
+  cases hp
+  intro d hd
+  rw [← hl, List.take_left'] at hd
+  · obtain ⟨s, hs, hsd⟩ := List.mem_filterMap.mp hd
+    obtain ⟨_, d', m, hd', hm⟩ := hpre s hs
+    simp only [durOf?, hd', Option.some.injEq] at hsd
+    subst hsd
+    exact ⟨m, hm⟩
+  · rfl
+
+/-- **... no matter how the preceding durations are later changed.**  After any `changeDuration`
+    call (accepted or refused, on any segment) the blueprint is still split around the same
+    waituntil, so if it still forges and the preceding resolved durations are whole numbers of
+    samples, the segment after the wait still starts at sample `round(t·SR)` and the padding is
+    still zeros. -/
+theorem wait_start_after_changeDuration (b : BP) (name : String) (dur : Val) (all : Bool)
+    (pre : List Seg) (w : Seg) (post : List Seg) (t : Rat) (tl : List Val)
+    (hb : b.segs = pre ++ w :: post) (hw : w.fn.isWait = true) (ha : w.args = .num t :: tl)
+    (f : Forged) (h : forgeBP (b.changeDuration name dur all).st = .ok f)
+    (sr : Rat) (ds : List Rat) (hsr : b.SR = .num sr)
+    (hds : (b.changeDuration name dur all).st.resolveWaits = .ok ds)
+    (hal : ∀ d ∈ ds.take pre.length, ∃ m : Nat, d * sr = m) (T : Int) (ht : |t * sr - T| ≤ 2/5) :
+    rhe (t * sr) = T ∧
+    ((sumN ((f.blocks.map Blk.len).take (pre.length + 1)) : Nat) : Int) = T ∧
+    (∀ hs : pre.length + 1 < (starts (f.blocks.map Blk.len) 0).length,
+      (((starts (f.blocks.map Blk.len) 0)[pre.length + 1] : Nat) : Int) = T) ∧
+    ∃ hbk : pre.length < f.blocks.length,
+      f.blocks[pre.length].eval? = some (List.replicate f.blocks[pre.length].len 0) := by
+  obtain ⟨pre', w', post', hsegs, hl, _, hfn, hargs, hSR⟩ := changeDuration_split b name dur all pre w post hb
+  have := wait_end_to_end _ f h pre' w' post' t tl hsegs (by rw [hfn]; exact hw) (by rw [hargs]; exact ha)
+    sr ds (by rw [hSR]; exact hsr) hds (by rw [hl]; exact hal) T ht
+  rw [hl] at this
+  exact this
+
+/-- ... and if the change makes the preceding segments overrun `t`, duration, points and forging
+    raise ValueError. -/
+theorem overrun_after_changeDuration (b : BP) (name : String) (dur : Val) (all : Bool)
+    (pre : List Seg) (w : Seg) (post : List Seg) (t : Rat) (tl : List Val)
+    (hb : b.segs = pre ++ w :: post) (hw : w.fn.isWait = true) (ha : w.args = .num t :: tl)
+    (dp : List Rat)
+    (hpre : BP.resolveGo ((b.changeDuration name dur all).st.segs.take pre.length) 0 = .ok dp)
+    (hover : t < sumR dp) :
+    (b.changeDuration name dur all).st.duration = .error .value ∧
+    (∀ sr, b.SR = .num sr → (b.changeDuration name dur all).st.points = .error .value ∧
+      forgeBP (b.changeDuration name dur all).st = .error .value) := by
+  obtain ⟨pre', w', post', hsegs, hl, _, hfn, hargs, hSR⟩ := changeDuration_split b name dur all pre w post hb
+  have htake : (b.changeDuration name dur all).st.segs.take pre.length = pre' := by
+    rw [hsegs, ← hl]; simp
+  rw [htake] at hpre
+  have := overrun_raises_general _ pre' w' post' t tl dp hsegs (by rw [hfn]; exact hw)
+    (by rw [hargs]; exact ha) hpre hover
+  exact ⟨this.1, fun sr hsr => this.2 sr (by rw [hSR]; exact hsr)⟩
+
+example : (exampleBP.changeDuration "ramp" (.num 6) false).err = none ∧
+    BP.resolveGo ((exampleBP.changeDuration "ramp" (.num 6) false).st.segs.take 1) 0 = .ok [6] ∧
+    (51/10 : Rat) < sumR [6] := by decide +kernel
+
+example : (exampleBP.changeDuration "ramp" (.num 3) false).err = none ∧
+    (exampleBP.changeDuration "ramp" (.num 3) false).st.resolveWaits = .ok [3, 21/10, 1] ∧
+    (forgeBP (exampleBP.changeDuration "ramp" (.num 3) false).st).toOption.map
+      (fun f => starts (f.blocks.map Blk.len) 0) = some [0, 30, 51] := by decide +kernel
 
 end BB.C04
